@@ -173,6 +173,18 @@ func (s *Script) TxsFor(i int, rctx sdk.Context) []Tx {
 			add(v.Actor, &skywaytypes.MsgLightNodeSaleClaim{Metadata: world.Meta(v.Actor), EventNonce: 2, EthBlockHeight: 11, Orchestrator: v.Addr.String(), ChainReferenceId: Ref, SkywayNonce: 2,
 				ClientAddress: world.NewActor("lightnode2").Addr.String(), Amount: sdkmath.NewInt(77), SmartContractAddress: "0x00000000000000000000000000000000000000ee", CompassId: world.CompassID})
 		}
+	case 9:
+		// a backlog: every validator reports two consecutive remote events in one block, so one
+		// end-blocker has to observe two nonces (the tally order matters)
+		last, _ := w.App.SkywayKeeper.GetLastObservedSkywayNonce(rctx, Ref)
+		for _, v := range w.Vals {
+			mine, _ := w.App.SkywayKeeper.GetLastSkywayNonceByValidator(rctx, v.ValAddr, Ref)
+			if mine != last {
+				continue
+			}
+			add(v.Actor, world.DepositClaim(v, Ref, last+1, 12, Erc20, 31, "0x00000000000000000000000000000000000000bb", u2.Addr.String()))
+			add(v.Actor, world.DepositClaim(v, Ref, last+2, 13, Erc20, 32, "0x00000000000000000000000000000000000000bb", u1.Addr.String()))
+		}
 	case 100:
 		add(u1, &evmtypes.MsgRemoveUserSmartContractRequest{Metadata: world.Meta(u1), Id: 1})
 	case 120:
